@@ -154,7 +154,7 @@ Case(k, op, v, vl, a, lb, rb) == [k |-> k, op |-> op, v |-> v, vl |-> vl, a |-> 
 
 \* strings over letters, digits and punctuation; values may be anything (also
 \* empty, also operator-like), operands must not start with an operator
-StrAlpha == {"1", "<", "=", "a", "s"}
+StrAlpha == IF Wide THEN {"-", "1", "<", "=", "a", "s"} ELSE {"1", "<", "=", "a", "s"}
 StrValues == Words(StrAlpha, IF Wide THEN 3 ELSE 2)
 StrOperands == {w \in Words(StrAlpha, 2) : Len(w) >= 1 /\ ~StartsWithOp(w)}
                  \cup { <<"a", "<", "o", "r", ">", "b">>, <<"!", "a">>, <<"s", "=">>, <<"B", "_", ".">> }
